@@ -107,6 +107,18 @@ def proves_ends(func_node, site, P, T, depth=0):
             if isinstance(lit, ast.Compare) and len(lit.ops) == 1 and isinstance(lit.ops[0], ast.Eq) and lp and \
                     {A.text(lit.left), A.text(lit.comparators[0])} == {"%s[0]" % T, "%s[-1]" % T} and (start or end):
                 start = end = True
+    # `i = T.find(c)` ... `i == len(T) - 1`: the searched character is the last one
+    for t, pol in facts:
+        for lit, lp in expand(t, pol):
+            if isinstance(lit, ast.Compare) and len(lit.ops) == 1 and lp and isinstance(lit.ops[0], ast.Eq):
+                sides = [lit.left, lit.comparators[0]]
+                for a_, b_ in (sides, sides[::-1]):
+                    if isinstance(a_, ast.Name) and A.text(b_) == "len(%s) - 1" % T:
+                        defs, tup = single_def(func_node, a_.id)
+                        if defs and not tup and all(isinstance(d.value, ast.Call) and isinstance(d.value.func, ast.Attribute)
+                                                    and d.value.func.attr in ("find", "rfind", "index", "rindex")
+                                                    and A.text(d.value.func.value) == T for d in defs):
+                            end = True
     if (start and end) or depth > 2:
         return start, end
     # T is a prefix / suffix of another text whose end was tested: `line = string[4:].lstrip()` keeps the last character
